@@ -375,8 +375,8 @@ class NormalizationContext(AbstractHashQueueContext):
         return event["args"]
 
     def event_within_limits(self, event: TraceEvent, count_this_call: bool = True) -> bool:
-        return self.event_limit.is_within_limits(event, count_this_call) or \
-            self.event_limit.is_ignored_type(event["ph"])
+        return self.event_limit.is_ignored_type(event["ph"]) or \
+            self.event_limit.is_within_limits(event, count_this_call)
 
     def drain(self) -> list[TraceEvent]:
         return []
